@@ -260,6 +260,14 @@ func streamConc(c *ctx) {
 				}
 			}
 		}
+		// the same peers in compressed form (EC2 curves): calls for different peers and forms interleave on the one object
+		if crv != 4 {
+			for _, r := range append([]key.Key{}, remotes...) {
+				if ck, err := ecdh.ToCompressedKey(r); err == nil {
+					remotes = append(remotes, ck)
+				}
+			}
+		}
 		wants := make([][]byte, len(remotes))
 		for j, r := range remotes {
 			wants[j], _ = ea.ECDH(r)
